@@ -37,7 +37,8 @@ impl Property for C12 {
     }
 
     fn gen_case(&self, _ctx: &Ctx, _worker: usize, rng: &mut Rng, _index: u64) -> Case {
-        let p = crate::w3::pick(rng);
+        // aliased-print observations belong to C19's rendering clause, not to C12
+        let p = crate::w3::pick_opts(rng, false);
         let mut world = World::random(rng, WORLD_DIMS);
         if world.rand == [0; 16] && rng.chance(3, 4) {
             world.rand = rng.bytes16();
